@@ -253,6 +253,55 @@ func init() {
 	ctl("index check skips rows", "X8", "IndexExists on every transaction row", "database/transaction", "Transaction", "checkIndexes", kStmt, "err := tc.IndexExists(row)", 0, before("if row == nil {\ncontinue\n}"))
 	ctl("Delete drops and re-takes the lock after looking the row up", "L-ATOM", "(*cache.RowCache).Delete|cache.RowCache.mutex", "cache", "RowCache", "Delete", kStmt, "oldRow := r.cache[uuid]", 0, to("oldRow := r.cache[uuid]\nr.mutex.Unlock()\nr.mutex.Lock()"))
 	ctl("references into root tables are not checked", "T-DANGLE", "processStrongReferences|rowExists", "updates", "referenceTracker", "processStrongReferences", kStmt, "exists, err := rt.rowExists(spec.ToTable, to)", 0, before("if isRoot(&rt.dbModel, spec.ToTable) {\ncontinue\n}"))
+	registerControl(&ControlDef{Name: "probe timeout created once, outside the loop", Rule: "T-PROBE", Expect: "handleInactivityProbes|probe timeout re-armed", Edit: func(p *Program) ([]TextEdit, error) {
+		a, err := locate(p, "client", "ovsdbClient", "handleInactivityProbes", kExpr, "time.After(o.options.inactivityTimeout)", 0)
+		if err != nil {
+			return nil, err
+		}
+		b, err := locate(p, "client", "ovsdbClient", "handleInactivityProbes", kStmt, "trafficSeen := o.trafficSeen", 0)
+		if err != nil {
+			return nil, err
+		}
+		return []TextEdit{p.editReplace(a, "probeTimeout"), p.editReplace(b, "trafficSeen := o.trafficSeen\nprobeTimeout := time.After(o.options.inactivityTimeout)")}, nil
+	}})
+	registerControl(&ControlDef{Name: "uuid pattern loses its end anchor", Rule: "K-REGEX", Expect: "regexp anchored", Edit: func(p *Program) ([]TextEdit, error) {
+		for _, pk := range p.Pkgs {
+			if !strings.HasSuffix(pk.PkgPath, "/ovsdb") {
+				continue
+			}
+			for _, f := range pk.Syntax {
+				var hit ast.Node
+				ast.Inspect(f, func(n ast.Node) bool {
+					if bl, ok := n.(*ast.BasicLit); ok && strings.Contains(bl.Value, "[0-9a-f]{12}$") {
+						hit = bl
+					}
+					return true
+				})
+				if hit != nil {
+					return []TextEdit{p.editReplace(hit, strings.Replace(p.text(hit), "{12}$", "{12}", 1))}, nil
+				}
+			}
+		}
+		return nil, fmt.Errorf("uuid pattern literal not found")
+	}})
+	registerControl(&ControlDef{Name: "decoder declares its own integer type for maxLength", Rule: "K-WIRETYPE", Expect: "ovsdb.BaseType|member maxLength", Edit: func(p *Program) ([]TextEdit, error) {
+		fd, _, err := p.funcDecl("ovsdb", "BaseType", "UnmarshalJSON")
+		if err != nil {
+			return nil, err
+		}
+		var fld ast.Node
+		ast.Inspect(fd.Body, func(n ast.Node) bool {
+			if f, ok := n.(*ast.Field); ok && len(f.Names) == 1 && f.Names[0].Name == "MaxLength" {
+				fld = f.Type
+			}
+			return true
+		})
+		asg, err := locate(p, "ovsdb", "BaseType", "UnmarshalJSON", kStmt, "b.maxLength = bt.MaxLength", 0)
+		if fld == nil || err != nil {
+			return nil, fmt.Errorf("MaxLength member / assignment not found")
+		}
+		return []TextEdit{p.editReplace(fld, "*wireInt"), p.editReplace(asg, "b.maxLength = (*int)(bt.MaxLength)"), p.editRange(fd.End(), fd.End(), "\n\ntype wireInt int\n")}, nil
+	}})
 	ctl("lock taken before waiting for the handlers", "L-WAIT", "handleDisconnectNotification|WaitGroup.Wait", "client", "ovsdbClient", "handleDisconnectNotification", kStmt, "o.handlerShutdown.Wait()", 0, to("o.shutdownMutex.Lock()\no.handlerShutdown.Wait()\no.shutdownMutex.Unlock()"))
 	ctl("transact accepts an empty operation list", "G-ARGS", "at least one operation", "server", "OvsdbServer", "Transact", kExpr, "len(args) < 2", 0, to("len(args) < 1"))
 	ctl("delete-by-keys special case for every column", "P-NIL-TYPEOBJ", "addMutateOperation|deref", "updates", "ModelUpdates", "addMutateOperation", kExpr, `mutation.Mutator == "delete" && column.Type == ovsdb.TypeMap && reflect.TypeOf(mutation.Value) != reflect.TypeOf(ovsdb.OvsMap{})`, 0, to(`mutation.Mutator == "delete" && reflect.TypeOf(mutation.Value) != reflect.TypeOf(ovsdb.OvsMap{})`))
